@@ -1470,8 +1470,10 @@ def whole_objects(ctx):
     def bump(k):
         stats[k] = stats.get(k, 0) + 1
 
-    def roundtrip(x, label, tags, read_args=(), equal=None, known=None):
-        """writer(x) -> reader; returns the object read back (or None).  Reports every failure."""
+    def roundtrip(x, label, tags, read_args=(), equal=None, known=None, known_raise=None):
+        """writer(x) -> reader; returns the object read back (or None).  Reports every failure.
+        known(x, y) / known_raise(exception): extra tags (signature of a recorded open finding) when the inequality /
+        the reader's exception is exactly the recorded behaviour, [] otherwise."""
         w, r = ProtobufWriter(), ProtobufReader()
         try:
             m = w.convert(x)
@@ -1487,7 +1489,7 @@ def whole_objects(ctx):
             y = r.convert(m, *read_args)
         except Exception as e:
             ctx.fail("oracle", "C20 whole object %s (%s): the reader raised %s: %s" % (type(x).__name__, label, type(e).__name__, str(e)[:200]),
-                     ["whole-object", type(x).__name__] + tags, payload, True)
+                     ["whole-object", type(x).__name__] + tags + (known_raise(e) if known_raise else []), payload, True)
             return None
         # everything that touches the object READ BACK runs under this guard: an exception raised by it (by its
         # __eq__/kind/__str__, or by a callable it carries) means it is not usable like the original, which is a
@@ -1740,4 +1742,37 @@ def whole_objects(ctx):
               "probe:validation-reason", ["probe", "result"], known=dropped)
     roundtrip(ValidationResult(ValidationResultStatus.VALID, "v", logs[:1], {up.model.metrics.MinimizeSequentialPlanLength(): 4}),
               "probe:validation-metric-evaluations", ["probe", "result"], known=dropped)
+    # C20-F5: a user type that occurs ONLY as the type of a quantified variable / of a forall-effect variable is not in
+    # problem.user_types (only the types of fluents, objects and action parameters are registered), so the writer
+    # does not write it and the reader raises UPValueError 'UserType C is not defined!'
+    def type_only_in_variable(variant):
+        from unified_planning.shortcuts import UserType, Fluent, BoolType, Variable, InstantaneousAction, Exists
+        A = UserType("A")
+        C = UserType("C", A)
+        q = Problem("only-in-variable-" + variant)
+        flag = q.add_fluent("flag", default_initial_value=False)
+        pa = Fluent("p", BoolType(), x=A)
+        q.add_fluent(pa, default_initial_value=False)
+        q.add_object("a0", A)
+        v = Variable("v", C)
+        act = InstantaneousAction("act")
+        if variant == "quantifier":
+            act.add_precondition(Exists(pa(v), v))
+            act.add_effect(flag, True)
+        else:
+            act.add_effect(pa(v), True, forall=[v])
+        q.add_action(act)
+        q.add_goal(flag)
+        return q
+
+    def f5_raise(e):
+        if isinstance(e, up.exceptions.UPValueError) and "UserType C is not defined" in str(e):
+            return ["user-type-only-in-variable", "reader-raises", "UPValueError"]
+        return []
+    for variant in ("quantifier", "forall-effect"):
+        q = type_only_in_variable(variant)
+        if q.has_type("C"):
+            continue            # the type is registered by the problem: nothing special about this input any more
+        roundtrip(q, "probe:user-type-only-in-%s-variable" % variant, ["probe", "c20", "whole", "problem", "variable:" + variant],
+                  known_raise=f5_raise)
     return {"objects": n["objects"], "distinct": len(seen), "stats": stats, "samples": samples}
